@@ -23,14 +23,13 @@ var terminators = map[string]bool{
 
 func (f *Frame) execCall(instr ssa.Instruction, c *ssa.CallCommon, st *State) *V {
 	r := f.execCallInner(instr, c, st)
-	name := ""
 	if sc := c.StaticCallee(); sc != nil {
-		name = sc.Name()
+		f.anchorsAfterCall(sc.Name(), st)
+		if sn := ShortName(sc); sn != "" && sn != sc.Name() {
+			f.anchorsAfterCall(sn, st)
+		}
 	} else if c.IsInvoke() {
-		name = c.Method.Name()
-	}
-	if name != "" {
-		f.anchorsAfterCall(name, st)
+		f.anchorsAfterCall(ifaceMethodName(c), st)
 	}
 	return r
 }
@@ -61,7 +60,8 @@ func (f *Frame) execCallInner(instr ssa.Instruction, c *ssa.CallCommon, st *Stat
 		return &V{Typ: resT, F: vs}
 	}
 	if c.IsInvoke() {
-		f.anchorsAtCall(instr, c.Method.Name(), st)
+		f.curCallArgs = args
+		f.anchorsAtCall(instr, ifaceMethodName(c), st)
 		name := ifaceMethodName(c)
 		if ct := u.eng.Specs.Contracts[name]; ct != nil {
 			return mkRes(f.applyContract(instr, ct, nil, c.Signature(), name, args, st))
@@ -70,7 +70,11 @@ func (f *Frame) execCallInner(instr ssa.Instruction, c *ssa.CallCommon, st *Stat
 	}
 	callee := c.StaticCallee()
 	if callee != nil {
+		f.curCallArgs = args
 		f.anchorsAtCall(instr, callee.Name(), st)
+		if sn := ShortName(callee); sn != "" && sn != callee.Name() {
+			f.anchorsAtCall(instr, sn, st)
+		}
 	}
 	if callee == nil {
 		fv := f.val(c.Value)
@@ -112,6 +116,11 @@ func (f *Frame) execCallInner(instr ssa.Instruction, c *ssa.CallCommon, st *Stat
 			f.fail("recursive call to %s needs a contract", name)
 		}
 		var bind []*V
+		if mc, ok := c.Value.(*ssa.MakeClosure); ok {
+			if cv := f.val(mc); cv != nil && cv.Fn != nil {
+				bind = cv.Fn.Bind
+			}
+		}
 		return mkRes(f.inline(instr, callee, args, bind, st))
 	}
 	return mkRes(f.defaultCall(instr, name, c.Signature(), args, st))
@@ -166,8 +175,16 @@ func (f *Frame) dynamicCall(instr ssa.Instruction, c *ssa.CallCommon, fv *V, arg
 			return r
 		}
 	}
-	f.fail("call through unresolved function value %s", c.Value.Name())
-	return nil
+	// unknown callee: it may do anything to the heap (and is assumed not to panic)
+	f.u.note("call through a function value in " + ShortName(f.fn) + " (" + c.Value.Name() + "): arbitrary effect on the heap assumed, no panic assumed")
+	f.u.havocAll(st)
+	if f.u.writeLog != nil {
+		*f.u.writeLog = append(*f.u.writeLog, writeRec{key: "*"})
+	}
+	na := f.u.fresh("alloc", SInt)
+	f.u.assume(st, app(SBool, ">=", na, st.alloc))
+	st.alloc = na
+	return f.freshResults(st, c.Signature(), "dyn")
 }
 
 func allScalar(vs []*V) bool {
@@ -927,8 +944,13 @@ func (u *Unit) havocAll(st *State) {
 			nh[k] = v
 		}
 	}
+	snap := epochSnap{heap: st.heap, prev: st.epoch, preserve: append([]T{}, u.localRefs...)}
 	st.heap = nh
 	st.epoch = u.newEpoch(nil)
+	if u.epochSnaps == nil {
+		u.epochSnaps = map[int]epochSnap{}
+	}
+	u.epochSnaps[st.epoch] = snap
 }
 
 var _ = token.NoPos
@@ -1000,6 +1022,11 @@ func (u *Unit) pureAxiom(name string, callee *ssa.Function, sig *types.Signature
 // before the n-th call (in execution order of the VC generator) of a callee
 // with that name.
 func (f *Frame) anchorsAtCall(instr ssa.Instruction, calleeName string, st *State) {
+	f.anchorsAt("call", calleeName, st)
+}
+
+// anchorsAt evaluates the assert@/assume@ clauses anchored at "<kind> <name>#<n>".
+func (f *Frame) anchorsAt(kind, calleeName string, st *State) {
 	if !f.top || f.contract == nil || len(f.contract.Asserts) == 0 {
 		return
 	}
@@ -1007,15 +1034,18 @@ func (f *Frame) anchorsAtCall(instr ssa.Instruction, calleeName string, st *Stat
 	if f.anchorOrd == nil {
 		f.anchorOrd = map[string]int{}
 	}
-	n := f.anchorOrd[calleeName]
-	f.anchorOrd[calleeName] = n + 1
+	n := f.anchorOrd[kind+" "+calleeName]
+	f.anchorOrd[kind+" "+calleeName] = n + 1
 	for _, a := range f.contract.Asserts {
-		want := fmt.Sprintf("call %s#%d", calleeName, n)
-		if a.Anchor != want && !(a.Anchor == "call "+calleeName+"#*") {
+		want := fmt.Sprintf("%s %s#%d", kind, calleeName, n)
+		if a.Anchor != want && !(a.Anchor == kind+" "+calleeName+"#*") {
 			continue
 		}
 		f.usedAnchors[a.Anchor] = true
 		ctx := f.specCtxAt(st, f.curBlock, f.curIdx)
+		for k, av := range f.curCallArgs {
+			ctx.env[fmt.Sprintf("callarg%d", k)] = av
+		}
 		label := a.Label
 		if label == "" {
 			label = "0"
